@@ -151,6 +151,7 @@ class World:
         self.res_cache = {}; self.const_vals = {}
         self.solver = z3.Solver(); self.queries = 0; self.solver_time = 0.0
         self.step_limit = 400000; self.bodies_run = set(); self.models_used = set(); self.steps_total = 0
+        self.stubs = {}
         self.hash_order = 'insertion'          # or 'symbolic': iteration order of std hash containers is chosen by the solver
 
     def body(self, ref): return self.files[ref[0]].body(ref[1])
@@ -223,7 +224,7 @@ class World:
         tsegs = split_path(mt.strip_generics(sty)) if re.match(r'[\w:]+', sty) else [sty]
         skey = refs + tsegs[-1].replace(' ', '')
         cands = [h for h in self.methods.get(meth, []) if h[2] is not None and h[2].trait == trait and h[2].self_key.replace(' ', '') == skey]
-        if len(cands) > 1 and len(tsegs) > 1:
+        if cands and len(tsegs) > 1:
             quals = tsegs[:-1]
             def ok(h):
                 a = h[2].self_adt
@@ -236,6 +237,7 @@ class World:
                 return True
             c2 = [h for h in cands if ok(h)]
             if c2: cands = c2
+            elif quals[0] in ('std', 'core', 'alloc') or quals[0] not in self.files: cands = []      # e.g. std::path::Path is not hir::Path
         if len(cands) > 1 and trait_full and '<' in trait_full:
             inner = trait_full[trait_full.index('<') + 1:-1] if trait_full.endswith('>') else ''
             want = [arg_key(x) for x in mt.split_top(inner)] if inner else []
@@ -875,6 +877,9 @@ class Exec:
 
     def run_body(s, ref, args):
         W = s.W
+        stub = W.stubs.get(ref[1]) if W.stubs else None
+        if stub is not None:                 # environment stub declared by the obligation (listed in its evidence)
+            W.models_used.add('STUB:' + ref[1]); return stub(s, args)
         body = W.body(ref)
         if ref not in W.bodies_run: W.bodies_run.add(ref)
         frame = {}
